@@ -127,7 +127,7 @@ def task(n1, n2, L):
 
 def main():
     chk = Check("C04", __doc__)
-    LX = 4 if chk.tier == "quick" else 6
+    LX = 5 if chk.tier == "quick" else 6
     chk.bounds = {"alphabet of X": SIGMA_S, "X: every text of length": f"0..{LX}", "D1": sorted(D1S), "D2": sorted(D2S)}
     chk.assumptions = ["D1/D2 are the listed concrete documents; their keys use characters X cannot produce, so X cannot create a key collision",
                        "X ranges over the splitter alphabet (one representative per character class of the mark regex)"]
